@@ -878,3 +878,104 @@ def pdx_enumerate_edits(pdx):
                                 continue
                         edits.append(e)
     return edits
+
+
+# ---------------------------------------------------------------------------
+# layer-overview descriptions: several layers of all kinds, each counted quantity independently zero / non-zero
+# ---------------------------------------------------------------------------
+#   mdesc = {"n_comparams": n, "layers": [{"name", "kind", "parent": index of an earlier layer | None,
+#                                           "n_services": k, "n_dops": k, "comparams": [comparam index, ...]}]}
+LAYER_KINDS = ["PROTOCOL", "FUNCTIONAL-GROUP", "ECU-SHARED-DATA", "BASE-VARIANT", "ECU-VARIANT"]
+ALLOWED_PARENTS = {"ECU-VARIANT": ("BASE-VARIANT", "FUNCTIONAL-GROUP", "PROTOCOL", "ECU-SHARED-DATA"),
+                   "BASE-VARIANT": ("FUNCTIONAL-GROUP", "PROTOCOL", "ECU-SHARED-DATA"),
+                   "FUNCTIONAL-GROUP": ("PROTOCOL", "ECU-SHARED-DATA"),
+                   "PROTOCOL": ("ECU-SHARED-DATA",), "ECU-SHARED-DATA": ()}
+_CONTAINER_TAG = {"PROTOCOL": "PROTOCOLS", "FUNCTIONAL-GROUP": "FUNCTIONAL-GROUPS", "ECU-SHARED-DATA": "ECU-SHARED-DATAS",
+                  "BASE-VARIANT": "BASE-VARIANTS", "ECU-VARIANT": "ECU-VARIANTS"}
+
+
+def m_well_formed(md) -> bool:
+    names = [l["name"] for l in md["layers"]]
+    if len(set(names)) != len(names):
+        return False
+    for i, l in enumerate(md["layers"]):
+        if l["kind"] not in LAYER_KINDS:
+            return False
+        if l["parent"] is not None and not (0 <= l["parent"] < i and
+                                            md["layers"][l["parent"]]["kind"] in ALLOWED_PARENTS[l["kind"]]):
+            return False
+        if l["kind"] == "ECU-SHARED-DATA" and l["comparams"]:
+            return False        # an ECU-SHARED-DATA is no hierarchy element: it has no COMPARAM-REFS
+        if any(not (0 <= c < md["n_comparams"]) for c in l["comparams"]) or len(set(l["comparams"])) != len(l["comparams"]):
+            return False
+    return True
+
+
+def m_names(md, i):
+    """effective short names {"services": [...], "dops": [...], "comparams": [...]} of layer i: everything of
+    the parent chain is inherited (all short names are unique), communication parameters are keyed by comparam"""
+    l = md["layers"][i]
+    out = {"services": [], "dops": [], "comparams": []}
+    if l["parent"] is not None:
+        out = m_names(md, l["parent"])
+        if l["kind"] == "ECU-SHARED-DATA":
+            out["comparams"] = []
+    out["services"] = out["services"] + [f"{l['name']}_s{k}" for k in range(l["n_services"])]
+    out["dops"] = out["dops"] + [f"{l['name']}_d{k}" for k in range(l["n_dops"])]
+    out["comparams"] = out["comparams"] + [f"CP_{c}" for c in l["comparams"] if f"CP_{c}" not in out["comparams"]]
+    return out
+
+
+def m_counts(md, i):
+    return {k: len(v) for k, v in m_names(md, i).items()}
+
+
+def m_emit(md) -> list:
+    docs = emit({"layers": [], "n_comparams": md["n_comparams"]})[:1]
+    docs.append(f'<?xml version="1.0" encoding="UTF-8"?><ODX MODEL-VERSION="2.2.0" {XSI}>'
+                f'<COMPARAM-SPEC ID="CSPEC"><SHORT-NAME>CSPEC</SHORT-NAME></COMPARAM-SPEC></ODX>'.encode())
+    per_kind = {k: [] for k in LAYER_KINDS}
+    sub = 0
+    for l in md["layers"]:
+        ln, tag = l["name"], l["kind"]
+        x = [f'<{tag} ID="{ln}"><SHORT-NAME>{ln}</SHORT-NAME>']
+        if l["n_dops"]:
+            x.append("<DIAG-DATA-DICTIONARY-SPEC><DATA-OBJECT-PROPS>")
+            for k in range(l["n_dops"]):
+                x.append(f'<DATA-OBJECT-PROP ID="{ln}.DOP.{k}"><SHORT-NAME>{ln}_d{k}</SHORT-NAME>{_compu_xml(None)}'
+                         f'<DIAG-CODED-TYPE BASE-DATA-TYPE="A_UINT32" xsi:type="STANDARD-LENGTH-TYPE">'
+                         f'<BIT-LENGTH>8</BIT-LENGTH></DIAG-CODED-TYPE><PHYSICAL-TYPE BASE-DATA-TYPE="A_UINT32"/>'
+                         f'</DATA-OBJECT-PROP>')
+            x.append("</DATA-OBJECT-PROPS></DIAG-DATA-DICTIONARY-SPEC>")
+        if l["n_services"]:
+            comms, rqs = [], []
+            for k in range(l["n_services"]):
+                comms.append(f'<DIAG-SERVICE ID="{ln}.service.{k}"><SHORT-NAME>{ln}_s{k}</SHORT-NAME>'
+                             f'<REQUEST-REF ID-REF="{ln}.RQ.{k}"/></DIAG-SERVICE>')
+                ps = [{"kind": "CC", "name": "sid", "pos": 0, "bits": 8, "value": 0x22, "type": "A_UINT32", "semantic": None},
+                      {"kind": "CC", "name": "sub", "pos": 1, "bits": 16, "value": sub, "type": "A_UINT32", "semantic": None}]
+                sub += 1
+                rqs.append(_msg_xml("REQUEST", f"{ln}.RQ.{k}", {"name": f"{ln}_rq{k}", "params": ps}, {}))
+            x.append("<DIAG-COMMS>" + "".join(comms) + "</DIAG-COMMS><REQUESTS>" + "".join(rqs) + "</REQUESTS>")
+        if l["comparams"]:
+            x.append("<COMPARAM-REFS>")
+            for c in l["comparams"]:
+                x.append(f'<COMPARAM-REF ID-REF="CS.CP_{c}" DOCREF="CS" DOCTYPE="COMPARAM-SUBSET">'
+                         f'<SIMPLE-VALUE>{c}</SIMPLE-VALUE></COMPARAM-REF>')
+            x.append("</COMPARAM-REFS>")
+        if tag == "PROTOCOL":
+            x.append('<COMPARAM-SPEC-REF ID-REF="CSPEC" DOCREF="CSPEC" DOCTYPE="COMPARAM-SPEC"/>')
+        if l["parent"] is not None:
+            p = md["layers"][l["parent"]]
+            x.append(f'<PARENT-REFS><PARENT-REF ID-REF="{p["name"]}" DOCREF="DLC" DOCTYPE="CONTAINER" '
+                     f'xsi:type="{p["kind"]}-REF"/></PARENT-REFS>')
+        x.append(f"</{tag}>")
+        per_kind[tag].append("".join(x))
+    d = [f'<?xml version="1.0" encoding="UTF-8"?><ODX MODEL-VERSION="2.2.0" {XSI}>'
+         f'<DIAG-LAYER-CONTAINER ID="DLC"><SHORT-NAME>DLC</SHORT-NAME>']
+    for k in LAYER_KINDS:
+        if per_kind[k]:
+            d.append(f"<{_CONTAINER_TAG[k]}>" + "".join(per_kind[k]) + f"</{_CONTAINER_TAG[k]}>")
+    d.append("</DIAG-LAYER-CONTAINER></ODX>")
+    docs.append("".join(d).encode())
+    return docs
